@@ -59,11 +59,18 @@ TEXT["C12"] = dict(ref="DESIGN.md 4 C12", technique="TLC model checking + TLC-ge
     "on_join or wamp.session.get.",
     note=NOTE + "A trusted originator asking disclose_me in a non-disclosing realm is treated as the code does (refused); the statement leaves it open.")
 
+TEXT["C11"] = dict(ref="DESIGN.md 4 C11", technique="TLC-generated scenarios run simultaneously in several realms of one router + per-realm TLC trace validation (non-interference as explainability)",
+    level=TL + "For C11 two or three independently generated scenarios run interleaved in different realms of one router (one static, one added at run time, "
+    "one created from the realm template; one is removed in the middle) with identical URIs, request ids and colliding subscription/registration ids. "
+    "Each realm's observations are validated against Core.tla given only that realm's inputs: anything leaking in or out of a realm makes its trace "
+    "inexplicable; messages arriving in a realm without input are logged as input-less steps, which the specification rejects.",
+    note=NOTE + "In the specification realms are disjoint state records, so isolation holds there by construction; the check is the conformance leg.")
+
 NOT_APPLICABLE = {}
 
 ENGINES = [
     {"name": "core", "path": "/verif/tools/families.py run_core; spec/Core.tla MC.tla Gen.tla Trace.tla; harness/exec.go",
-     "serves_properties": ["C01", "C02", "C03", "C05", "C10", "C12", "C13", "C18", "C20"],
+     "serves_properties": ["C01", "C02", "C03", "C05", "C10", "C11", "C12", "C13", "C18", "C20"],
      "kind_free_text": "TLC model checking, TLC scenario generation, replay into the real router under synctest, TLC trace validation"},
 ]
 
